@@ -8,7 +8,7 @@ RO_BOUND = {
     "S_U16": 4, "S_BOOL": 3, "S_BOOL3": 5, "S_SB": 8, "S_SB2": 14, "S_SS1": 10, "S_SE1": 10, "S_CE": 3,
     "S_SE16": 6, "S_PS": 9, "S_PE": 10, "V_U8": 8, "V_U8L32": 10, "V_U16": 10, "V_BOOL": 8, "V_SB": 14,
     "V_A3": 12, "V_P": 10, "STR8": 5, "STR16": 6, "STRP": 6, "X_U8": 6, "X_B": 6, "X_U16": 8, "X_V": 6,
-    "X_V16": 8, "X_S": 5, "X_P": 8, "U_S1": 12, "U_S2": 14, "U_S3": 6, "U_S4": 7, "U_S5": 12, "U_S6": 12, "X_V8L16": 8, "U_PS": 10,
+    "X_V16": 8, "X_S": 5, "X_P": 8, "U_S1": 12, "U_S2": 14, "U_S3": 6, "U_S4": 7, "U_S5": 12, "U_S6": 12, "X_V8L16": 8, "X_U8L16": 8, "U_PS": 10,
     "U_E1": 16, "U_E2": 8, "U_E3": 12, "U_E4": 14, "U_PE": 10,
 }
 SHAPE_DOC = {
@@ -22,21 +22,22 @@ SHAPE_DOC = {
     "X_V16": "FlexVec<FlatVec<u8,u16>,u16>", "X_S": "FlexVec<FlatString<u8>,u8>", "X_P": "FlexVec<le::U16,le::U16>",
     "U_S1": "unsized struct{u8,u16,FlatVec<u8,u8>}", "U_S2": "unsized struct{u32,FlatVec<u8,u8>}", "U_S3": "unsized struct{Bool,FlatString<u8>}",
     "U_S4": "unsized struct{u8,FlexVec<u8,u8>}", "U_S6": "unsized struct{u8,[u8;2],u16,FlatVec<u8,u8>} (field with size > alignment at an odd offset)",
-    "X_V8L16": "FlexVec<FlatVec<u8,u8>,u16> (offset type more aligned than the items)", "U_S5": "unsized struct{u16,FlatVec<u16,u8>}", "U_PS": "portable unsized struct{le::U16,FlatVec<le::U16,le::U16>}",
+    "X_V8L16": "FlexVec<FlatVec<u8,u8>,u16> (offset type more aligned than the items)",
+    "X_U8L16": "FlexVec<u8,u16> (offset type more aligned than the sized items)", "U_S5": "unsized struct{u16,FlatVec<u16,u8>}", "U_PS": "portable unsized struct{le::U16,FlatVec<le::U16,le::U16>}",
     "U_E1": "unsized enum{A,B(u8,u16),C{u32,FlatVec<u8,u16>}} (the test suite's)", "U_E2": "unsized enum{A,B(Bool),C(FlatVec<u8,u8>)}",
     "U_E3": "unsized enum(tag u16){A,B(Bool,u16),C{u8,FlatVec<u8,u8>}}", "U_E4": "unsized enum{A,S(unsized struct)}",
     "U_PE": "portable unsized enum{A,B(le::U16),C(portable unsized struct)}",
 }
 # shapes whose harnesses cost <= ~150 s: quick tier
 RO_QUICK = SIZED + ["V_U8", "V_U8L32", "V_U16", "V_BOOL", "V_P", "V_A3", "STR8", "U_S1", "U_S2", "U_S5", "U_S6", "U_PS",
-                    "U_E1", "U_E2", "U_E3", "U_E4", "U_PE", "X_U8", "X_U16"]
+                    "U_E1", "U_E2", "U_E3", "U_E4", "U_PE", "X_U8", "X_U16", "X_U8L16"]
 RO_THOROUGH = ["V_SB", "STR16", "STRP", "X_B", "X_V", "X_P", "U_S3", "U_S4", "X_V16", "X_S", "X_V8L16"]
 STRINGY = {"STR8", "STR16", "STRP", "U_S3", "X_S"}
 CONSTRAINED = {"S_BOOL", "S_BOOL3", "S_SB", "S_SB2", "S_SE1", "S_CE", "S_SE16", "S_PE", "V_BOOL", "V_SB", "STR8", "STR16",
                "STRP", "X_B", "X_U16", "X_V16", "X_S", "U_S3", "U_E1", "U_E2", "U_E3", "U_E4", "U_PE"}
-SLOW = {"X_U8": 900, "X_U16": 1100, "X_B": 1100, "X_V": 2700, "X_P": 1200, "U_S4": 900, "STR16": 900, "STRP": 900,
+SLOW = {"X_U8": 900, "X_U16": 1100, "X_U8L16": 1100, "X_B": 1100, "X_V": 2700, "X_P": 1200, "U_S4": 900, "STR16": 900, "STRP": 900,
         "U_S3": 900, "V_SB": 900, "X_V16": 3000, "X_S": 3000, "X_V8L16": 3000, "STR8": 600, "V_A3": 600}
-BIGMEM = {"X_V": 14, "X_V16": 16, "X_S": 16, "X_V8L16": 16, "V_SB": 12, "X_P": 10, "X_U16": 10, "X_B": 10}
+BIGMEM = {"X_V": 14, "X_V16": 16, "X_S": 16, "X_V8L16": 16, "V_SB": 12, "X_P": 10, "X_U16": 10, "X_U8L16": 10, "X_B": 10}
 
 
 def ro(family, what, shapes_quick=None, shapes_thorough=None, only=None):
@@ -244,7 +245,7 @@ prop("C10", "receiver fed arbitrary bytes",
 # ---------------------------------------------------------------- histories by one step
 VSTEP = {"V_U8_st": ("FlatVec<u8,u8>", 7, 900), "V_U16_st": ("FlatVec<u16,u8>", 9, 1200), "V_U8L32_st": ("FlatVec<u8,u32>", 10, 1200),
          "V_A3_st": ("FlatVec<[u8;3],u16>", 10, 1800), "V_P_st": ("FlatVec<le::U16,le::U16>", 8, 1200)}
-XSTEP = {"X_U8_st": ("FlexVec<u8,u8>", 5, 1500), "X_U8_st6": ("FlexVec<u8,u8>", 6, 3600), "X_U16_st": ("FlexVec<u16,u16>", 6, 3600), "X_P_st": ("FlexVec<le::U16,le::U16>", 6, 3600)}
+XSTEP = {"X_U8_st": ("FlexVec<u8,u8>", 5, 2700), "X_U8_st6": ("FlexVec<u8,u8>", 6, 3600), "X_U16_st": ("FlexVec<u16,u16>", 6, 3600), "X_P_st": ("FlexVec<le::U16,le::U16>", 6, 3600)}
 XOPS = ["push", "push_default", "pop", "truncate", "clear", "edit"]
 XVOPS = ["push", "pop", "truncate", "edit"]
 STEP_ASSUME = ["a history is covered by one step from an arbitrary valid image (every validating image is a reachable state and every reachable state must validate, which each step re-asserts); the composition over steps is a paper argument"]
@@ -256,12 +257,12 @@ def vsteps(what, quick=("V_U8_st", "V_U16_st", "V_P_st")):
 
 
 def xsteps(what, quick=("X_U8_st",), ops=None):
-    return [H("step::%s::%s" % (m, op), t, 14, "every valid image <= %d bytes x %s with arbitrary arguments; %s" % (n, op, doc),
+    return [H("step::%s::%s" % (m, op), t, 20, "every valid image <= %d bytes x %s with arbitrary arguments; %s" % (n, op, doc),
               what, tier="quick" if m in quick else "thorough") for m, (doc, n, t) in XSTEP.items() for op in (ops or XOPS)]
 
 
 def xvsteps(what, ops=None, tier="thorough"):
-    return [H("step::X_V_st::%s" % op, 3600, 16, "every valid image <= 6 bytes x %s (push of a FlatVec of 0..2 items / pop / truncate / push into item i); FlexVec<FlatVec<u8,u8>,u8>" % op,
+    return [H("step::X_V_st::%s" % op, 3600, 24, "every valid image <= 6 bytes x %s (push of a FlatVec of 0..2 items / pop / truncate / push into item i); FlexVec<FlatVec<u8,u8>,u8>" % op,
               what, tier=tier) for op in (ops or XVOPS)]
 
 
